@@ -124,8 +124,16 @@ def guarded_call_sites(prog, f, max_rec):
                 consts = [const_int(cd.rv["a"]), const_int(cd.rv["b"])]
                 if max_rec in consts or (max_rec + 1) in consts:
                     # blocks on the continuing side
-                    for (_, x) in cfg.bool_edges(f, sb, cd.rv["op"] in ("Lt", "Le")) if not cd.neg else cfg.bool_edges(f, sb, cd.rv["op"] in ("Gt", "Ge")):
+                    cont = cfg.bool_edges(f, sb, cd.rv["op"] in ("Lt", "Le")) if not cd.neg else cfg.bool_edges(f, sb, cd.rv["op"] in ("Gt", "Ge"))
+                    for (_, x) in cont:
                         guarded |= cfg.region_dominated_by(f, x)
+                    # the refusal may travel as a value (`enter_nested()?`: the Err built on the exceeding side meets the
+                    # Ok of the continuing side before the `?`): with the continuing edges taken away, which blocks can
+                    # still be reached on a path that is consistent about that Result?
+                    from .. import typestate
+                    r_ = typestate.explore(prog, f, 0, lambda c, st, val: None, removed_edges=cont)
+                    if not r_.budget_hit:
+                        guarded |= {b for b in f.reachable if b not in r_.visited and cfg.dominates(f, inc, b)}
     return guarded
 
 
@@ -182,7 +190,14 @@ def run(ctx):
         g = callgraph.get(prog)
         removed = set()
         guards_found = 0
-        for k, f in nodes.items():
+        def pview(k):
+            # the guard may live in helper methods of the parser (`enter_nested()?` ... `leave_nested()`): the parsing
+            # functions are read with such helpers spliced in
+            f0_ = nodes[k]
+            return prog.view(k, keep=lambda t: not t.startswith(PARSER + "::") or t.split("::")[-1].startswith("parse")
+                             or t.split("::")[-1] in ("subparse",)) if f0_.kind != "closure" else f0_
+        for k, f0 in nodes.items():
+            f = pview(k)
             gb = guarded_call_sites(prog, f, max_rec)
             if gb:
                 guards_found += 1
@@ -218,6 +233,7 @@ def run(ctx):
         # ---- P2
         n2 = 0
         for k, f in sorted(nodes.items()):
+            f = pview(k)
             for h, body in cfg.natural_loops(f):
                 wraps = set()
                 moves = {}      # temp -> locals it is moved into inside the loop
@@ -260,6 +276,10 @@ def run(ctx):
                 for v in sorted(wraps):
                     n2 += 1
                     bounded = _loop_has_counter_bound(f, h, body)
+                    if not bounded:
+                        # the parser's own depth guard applied inside the loop (possibly through helper methods whose
+                        # refusal travels as a value): the wrap sits behind it on every value-consistent path
+                        bounded = bool(guarded_call_sites(prog, f, max_rec) & set(body))
                     ctx.ob("C01.P2.iterative-ast-depth-is-bounded", "%s%s|%s" % (tag, k.split("::")[-1], v), bounded,
                            "the loop in %s wraps the expression built so far into a new %s node on every iteration "
                            "without a bound: n chained operators give an AST of depth n and every later pass "
